@@ -179,3 +179,27 @@ Definition opv_obs (c : N * text * text * N * option nat * nat) : text * N * opt
   let m := if m =? 0 then VDown else if m =? 1 then VUp else if m =? 2 then VGoto else VFirst in
   let s := run_op_v k ins t m count i in
   (o_text s, N.of_nat (o_cur s), o_reg s).
+
+(** a case operator: (0 g~ / 1 gU / 2 gu, text, motion or None for the doubled operator, count, cursor) *)
+Definition case_obs (c : N * text * option motion * nat * nat) : text * N :=
+  let '(k, t, m, count, i) := c in
+  let k := if k =? 0 then CToggle else if k =? 1 then CUpper else CLower in
+  let s := match m with Some m => run_case k t m count i | None => run_case_lines k t count i end in
+  (o_text s, N.of_nat (o_cur s)).
+(** ~ and r: (None for ~ or Some c for r c, text, count, cursor) *)
+Definition tilde_obs (c : option N * text * nat * nat) : text * N :=
+  let '(r, t, count, i) := c in
+  let s := match r with Some ch => run_replace t ch count i | None => run_tilde t count i end in
+  (o_text s, N.of_nat (o_cur s)).
+
+(** J: (text, count, cursor) *)
+Definition join_obs (c : text * nat * nat) : text * N :=
+  let '(t, count, i) := c in let s := run_join t count i in (o_text s, N.of_nat (o_cur s)).
+
+(** an operator over a line motion followed by a put *)
+Definition opv_put_obs (c : (N * text * text * N * option nat * nat) * bool * nat) : text * N * option (bool * text) :=
+  let '((k, ins, t, m, count, i), after, pc) := c in
+  let k := if k =? 0 then OpDelete else if k =? 1 then OpYank else OpChange in
+  let m := if m =? 0 then VDown else if m =? 1 then VUp else if m =? 2 then VGoto else VFirst in
+  let s' := put after pc (run_op_v k ins t m count i) in
+  (o_text s', N.of_nat (o_cur s'), o_reg s').
